@@ -80,6 +80,16 @@ P = {
        "boundary mantissas, all bit lengths, hashes at target±1 under the four chains.",
   note=TB + "Python int &,>>,<< modelled as mod/div/mul by powers of two.",
   tech="Lean 4 proof (omega/interval_cases arithmetic) + generated-table equality + correspondence"),
+ 'C18': dict(
+  text="Lean theorems for all 17 message types and any field values in range: payload = protocol layout "
+       "(payload_eq_spec), frame = magic‖command‖length‖checksum‖payload (frame_eq_spec), parse∘frame = message with "
+       "the stream left exactly after the frame (parse_frame, reframe_identical), streams of frames parse in order "
+       "(parse_stream, parse_stream_append), wrong magic/checksum rejected, every strict prefix → truncation, "
+       "length_guard and position_le_frame_end (never reads beyond the frame; > MAX_SIZE → error after 24 bytes). Tied "
+       "by T1 (commands, messagemap, version constants, chain magic) and runs with every single-byte corruption and "
+       "truncation of small frames under the four chains.",
+  note=TB + "SHA-256d checksum has ≥ 4 bytes is an explicit hypothesis (ChecksumLen); altered-payload rejection assumes the 32-bit checksum differs (explicit hypothesis).",
+  tech="Lean 4 proof (codec round trip with stream position, fault-class decision logic) + tables + correspondence"),
 }
 
 REASON_PENDING = "check under construction in this build round (model/theorems not yet merged); see DESIGN.md §10/§11"
